@@ -3,7 +3,7 @@
    (any fragmentation) and application reads (any capacities), what has been delivered on a stream plus what
    is still queued for it is exactly the concatenation of the PSH payloads dispatched so far. *)
 From Coq Require Import List NArith ZArith Lia Bool.
-From AnyTLS Require Import Bytes Cmd Generated GeneratedFacts Frame Reader Session BytesFacts FrameProofs
+From AnyTLS Require Import Bytes Cmd Generated FactsCore FactsSession Frame Reader Session BytesFacts FrameProofs
   ReaderProofs SessTable SessHandle SessRecv.
 Import ListNotations.
 Import Sess.
@@ -314,3 +314,27 @@ Proof.
       * intros Ht. rewrite Hd, (He Ht). reflexivity.
     + destruct Hres as [H1 H2]. rewrite H1, H2. refine (conj eq_refl (conj (fun _ => eq_refl) (conj Hwf1 Hc1))).
 Qed.
+
+(* while the stream is open the reader has seen a prefix of what was written and no Eof *)
+Lemma pipe_prefix cR stR b s w gs ops stS wops rest :
+  s_closed stS = false ->
+  decode_all w = (gs, []) ->
+  filter not_padding gs = sent_frames (run_wops stS wops) ->
+  quiet_for cR b (sent_frames (run_wops stS wops)) ->
+  cfg_ok cR -> wf_sess stR -> s_closed stR = false -> dead stR = false ->
+  lookup b (tbl stR) = Some s -> rd s = rd_init ->
+  concat (recv_chunks ops) ++ rest = w -> caps_pos ops ->
+  let '(_, _, lg) := run_rops cR stR [] ops in
+  (exists more, delivered b (length (only b (gone stR))) lg ++ more = written b wops) /\
+  saw_eof b (length (only b (gone stR))) lg = false.
+Proof.
+  intros H1 H2 H3 H4 H5 H6 H7 H8 H9 H10 H11 H12.
+  pose proof (pipe_main cR stR b s w gs ops stS wops rest H1 H2 H3 H4 H5 H6 H7 H8 H9 H10 H11 H12) as H.
+  destruct (run_rops cR stR [] ops) as [[st' c'] lg].
+  destruct H as (s' & later & _ & _ & E & Heof & _). split; [eexists; exact E | exact Heof].
+Qed.
+
+Lemma split_ok sid d :
+  concat (split_chunk d) = d /\
+  Forall (fun f => fcmd f = Push /\ fsid f = sid /\ lenN (fdata f) <= max_payload) (data_frames sid d).
+Proof. split; [apply concat_split_chunk | apply data_frames_ok]. Qed.
